@@ -27,6 +27,15 @@ C_two == [r \in Two |-> IF r = 1 THEN <<Op("new"), Snd(3), Op("half"), Op("recv"
 S_two == [r \in Two |-> IF r = 1 THEN <<Op("recv"), Op("recv"), Ret(0)>>
                                 ELSE <<Op("recv"), Snd(2), Op("recv"), Ret(7)>>]
 
+\* scripts for schedule generation and conformance checking (MC_TunnelGen, TunnelTrace);
+\* sizes in units of 8192 bytes (W = 8, CH = 2)
+G_one == [r \in One |-> <<Op("new"), Snd(9), Snd(0), Op("half"), Op("recv"), Op("recv"), Op("recv")>>]
+GS_one == [r \in One |-> <<Op("recv"), Op("recv"), Op("recv"), Snd(3), Snd(10), Ret(0)>>]
+G_two == [r \in Two |-> IF r = 1 THEN <<Op("new"), Snd(3), Snd(2), Op("half"), Op("recv"), Op("recv")>>
+                                ELSE <<Op("new"), Snd(1), Op("half"), Op("recv"), Op("recv"), Op("recv")>>]
+GS_two == [r \in Two |-> IF r = 1 THEN <<Op("recv"), Op("recv"), Op("recv"), Snd(9), Ret(0)>>
+                                 ELSE <<Op("recv"), Snd(2), Op("recv"), Snd(1), Ret(7)>>]
+
 NoFaults == {}
 CancelOnly == {"cancel"}
 CloseOnly == {"close"}
